@@ -48,7 +48,9 @@ MANIFEST = dict(
          "base instance and all smoothness relations on the scaled instances (guard: some 0 < |f''| < 1e-12). Reflection "
          "symmetry (mirrored data, natural boundaries, all types, Interpolate and Fit). In the call histories the probe "
          "order is part of the history (first point after a call = last point before it, varying order and "
-         "derivative/value order).",
+         "derivative/value order). Fits do not depend on the listing order of the samples (descending, scrambled, two "
+         "blocks; library and csg_resample --nocut); natural fits succeed and are covariant for abscissae x 2^-20..2^20; "
+         "half of the csg_resample vectors carry magnitudes 2^-40..2^40 (ordinates) / 2^-20..2^20 (abscissae).",
     note="NOT covered: least-squares optimality of Fit beyond its first-order condition on small lattice data "
          "sets (normal equations against the cardinal splines of the fit grid, data on the quarter points of 3-5 "
          "knot grids; plus its consequences linearity, smoothness, boundary conditions, reproduction of in-space "
@@ -275,7 +277,19 @@ def lib_check(ctx, rec, out, plan, exact_abs):
         # condition number grows like 2^|xs| (measured 5e-8 relative at 2^30); ordinate scaling is bit-exact
         mx = max(abs(rec["inst"][s2 - 1].get("xs", 0)) for s2 in insts)
         if mx:
-            tol = max(1e-9, 2.0 ** mx * 1e-13) * scale + max(1e-10, 2.0 ** mx * 1e-14) * csum * maxy
+            # a FIT solves a constrained QR in unscaled unknowns (f, f''): error ~ 4^|xs| eps (measured 3e-6 at 2^20)
+            # (natural fits only when the abscissae are scaled UP; scaled down they are accurate; periodic fits both ways)
+            amp = 1.0
+            for s2 in insts:
+                i2 = rec["inst"][s2 - 1]
+                x2 = i2.get("xs", 0)
+                if i2["op"] == "interp":
+                    amp = max(amp, 2.0 ** abs(x2))
+                elif i2["b"] == 1:
+                    amp = max(amp, 4.0 ** abs(x2))
+                else:
+                    amp = max(amp, 4.0 ** max(x2, 0))
+            tol = max(1e-9, amp * 1e-13) * scale + max(1e-10, amp * 1e-14) * csum * maxy
         if clause.startswith("history-independence"):
             tol = 1e-12 * scale + 1e-12          # same arithmetic on the same inputs: exact
         if not (abs(res) <= tol):
@@ -357,7 +371,7 @@ def run_tables(ctx, exe, recs):
             items.append((i, cmds))
         else:
             n = len(r["y"])
-            xs_, ys_ = " ".join(repr(0.5 * j) for j in range(n)), " ".join(repr(float(v)) for v in r["y"])
+            xs_, ys_ = " ".join(repr(0.5 * j) for j in range(n)), " ".join(repr(v * 2.0 ** r["ys"]) for v in r["y"])
             first = ("tnewe %d %s %s %s %s" % (n, xs_, ys_, " ".join(repr(v / 4.0) for v in r["e"]), "".join(r["f"]))
                      if r["e"] else "tnew %d %s %s %s" % (n, xs_, ys_, "".join(r["f"])))
             items.append((i, [first,
@@ -391,14 +405,17 @@ def run_tables(ctx, exe, recs):
         if bad:
             ctx.violation("Table:smooth:exception", "Smooth/Save/Load threw %s on %s" % (bad, r), r)
             continue
-        exp = [s / r["p"] for s in r["s"]]            # exact in binary: small integers over 4^n
+        exp = [s / r["p"] * 2.0 ** r["ys"] for s in r["s"]]     # exact in binary: small integers over 4^n times 2^ys
         for step, lines in (("smooth", out[2]), ("save-load", out[5])):
             p = lines[0].split()
             n = int(p[1])
             xs = [float(t) for t in p[3:3 + n]]
             ys = [float(t) for t in p[4 + n:4 + 2 * n]]
             fl = p[5 + 2 * n] if len(p) > 5 + 2 * n else ""
-            if n != len(exp) or ys != exp:
+            # Smooth is exact at every magnitude; a file carries 10 significant digits (relative 1e-9)
+            same = (ys == exp) if (step == "smooth" or r["ys"] == 0) else \
+                (len(ys) == len(exp) and all(abs(a - b) <= 1e-9 * abs(b) for a, b in zip(ys, exp)))
+            if n != len(exp) or not same:
                 what = "end-point" if (n == len(exp) and (ys[0] != exp[0] or ys[-1] != exp[-1])) else "value"
                 ctx.violation("Table:%s:%s" % (step, what), "Table %s after Smooth(%d) of %s: y = %s, expected %s" % (
                     step, r["n"], r["y"], ys, exp), r)
@@ -434,19 +451,26 @@ def read_table(path):
 
 def resample_one(exe, d, idx, r):
     os.makedirs(d, exist_ok=True)
-    xd = float(r.get("xd", XD))          # abscissa lattice of this vector (16 dyadic; 10/20 decimal)
+    xd = float(r.get("xd", XD)) / 2.0 ** r.get("xs", 0)   # abscissa lattice (16 dyadic; 10/20 decimal), times 2^xs
+    sy = 2.0 ** r.get("ys", 0)                             # ordinate magnitude
 
     def gx(k):
         return repr(k / xd)              # shortest decimal text: the same text goes into the file and into --grid
     with open(os.path.join(d, "in.tab"), "w") as f:
-        for j, (k, v, fl) in enumerate(zip(r["k"], r["y"], r["f"])):
+        order = r.get("order") or list(range(1, len(r["k"]) + 1))      # listing order of the rows (from the spec)
+        for j in [o - 1 for o in order]:
+            k, v, fl = r["k"][j], r["y"][j], r["f"][j]
             if r.get("ye"):
-                f.write("%s %s %s %s\n" % (gx(k), fy(v), repr((j % 3) / 4.0), fl))   # x y yerr flag
+                f.write("%s %s %s %s\n" % (gx(k), repr(v / YD * sy), repr((j % 3) / 4.0 * sy), fl))   # x y yerr flag
             else:
-                f.write("%s %s %s\n" % (gx(k), fy(v), fl))
+                f.write("%s %s %s\n" % (gx(k), repr(v / YD * sy), fl))
     mn, h, mx = r["grid"]
-    cmd = [exe, "--in", "in.tab", "--out", "out.tab", "--derivative", "der.tab", "--type", r["type"],
+    cmd = [exe, "--in", "in.tab", "--out", "out.tab", "--derivative", "der.tab",
            "--grid", "%s:%s:%s" % (gx(mn), gx(h), gx(mx))]
+    if not (r["type"] == "akima" and idx % 2 == 1):
+        cmd += ["--type", r["type"]]                        # akima is the default: leave the option out in half of the runs
+    if order != sorted(order):
+        cmd += ["--nocut"]                                  # the cut of --fitgrid presumes an ascending table
     if r["fit"]:
         cmd += ["--fitgrid", "%s:%s:%s" % tuple(gx(v) for v in r["fit"])]
     if r["per"]:
@@ -491,36 +515,48 @@ def run_resample(ctx, exe, recs):
             ctx.violation(key + ":count", "output has %d/%d rows, expected %d for --grid %s" % (
                 len(val), len(der), n, o["cmd"][o["cmd"].index("--grid") + 1]), rr)
             continue
-        xd = float(r.get("xd", XD))
+        xd = float(r.get("xd", XD)) / 2.0 ** r.get("xs", 0)
+        sy = 2.0 ** r.get("ys", 0)
+        ascending = not r.get("order") or r["order"] == sorted(r["order"])
+        if r.get("xs") or r.get("ys"):
+            key += ":scaled"
+        if not ascending:
+            key += ":unordered-input"
         expx = [k / xd for k in r["x"]]
         if any(not vlib.close(a[0], b, 1e-9, 1e-12) or not vlib.close(d[0], b, 1e-9, 1e-12) for a, d, b in zip(val, der, expx)):
             ctx.violation(key + ":grid", "output points %s, expected %s" % ([a[0] for a in val], expx), rr)
             continue
-        if [a[2] for a in val] != r["fl"]:
+        if not ascending:
+            pass                                   # flags of an unordered table are not defined by the statement
+        elif [a[2] for a in val] != r["fl"]:
             where = "on-input-grid" if r["fam"] in ("ident", "identdec") else "transfer"
             ctx.violation(key + ":flags:" + where, "flags %s expected %s (input x=%s..%s flags=%s, %s)" % (
                 "".join(a[2] for a in val), "".join(r["fl"]), r["k"][0] / xd, r["k"][-1] / xd, "".join(r["f"]), " ".join(o["cmd"][1:])), rr)
-        if [a[2] for a in der] != r["fl"]:
+        if ascending and [a[2] for a in der] != r["fl"]:
             ctx.violation(key + ":flags:derivative-file", "derivative flags %s expected %s" % (
                 "".join(a[2] for a in der), "".join(r["fl"])), rr)
         if o["comment"] is not None and (not o["vc"] or o["vc"][0] != "# " + o["comment"]):
             ctx.violation(key + ":comment", "comment line %s, expected '# %s'" % (o["vc"][:1], o["comment"]), rr)
-        for name, got, exp, conv in (("value", val, r["val"], 1 / YD), ("derivative", der, r["der"], XD / YD)):
+        maxy = max([1] + [abs(v) for v in r["y"]])
+        for name, got, exp, conv in (("value", val, r["val"], sy / YD), ("derivative", der, r["der"], sy * xd / YD)):
             for row in range(len(exp) // 2):
                 e = exp[2 * row] / exp[2 * row + 1] * conv
-                if not vlib.close(got[row][1], e, 2e-9, 1e-9):
+                # relative to the magnitude of the table (10 significant digits in the files)
+                rtol = 2e-9
+                if r["fit"] and r["type"] == "cubic" and r.get("xs", 0) > 0:
+                    rtol = max(rtol, 4.0 ** r["xs"] * 1e-13)     # conditioning of the constrained QR, see spec/spline/README.md
+                if not vlib.close(got[row][1], e, rtol, rtol / 2 * conv * maxy):
                     ctx.violation("%s:%s:%s" % (key, name, _where(r["x"][row], r["k"])),
                                   "%s at x=%s is %r, expected %r (input x=%s y=%s)" % (
                                       name, expx[row], got[row][1], e, [k / xd for k in r["k"]], [v / YD for v in r["y"]]), rr)
                     break
-        maxy = max([1] + [abs(v) for v in r["y"]])
         for rel in r["rel"]:
             clause, t = rel[0], rel[1:]
             res = scale = 0.0
             csum = 0
             for j in range(0, len(t), 3):
                 cf, kind, row = t[j:j + 3]
-                o2 = val[row - 1][1] * YD if kind == 0 else der[row - 1][1] * YD / XD
+                o2 = val[row - 1][1] * YD / sy if kind == 0 else der[row - 1][1] * YD / xd / sy   # back to lattice units
                 res += cf * o2
                 scale += abs(cf * o2)
                 csum += abs(cf)
